@@ -76,6 +76,13 @@ theorem frames_compatible :
     Generated.C02Formats.frames.all (fun r => r.2.1 == r.2.2 || decide (r ∈ ResaveTables.asymmetricFrames)) = true ∧
     ResaveTables.asymmetricFrames.all (fun r => decide (r ∈ Generated.C02Formats.frames)) = true := by decide +kernel
 
+/-- the flat models use ONE format on both sides because the source does: for the 38 classes of `ResaveSamples.modelFormats` both
+lists of the regenerated row parse to exactly the items of the model -/
+theorem model_formats_are_the_source_pairs :
+    ResaveSamples.modelFormats.all (fun m => match Generated.C02Formats.pairs.lookup m.1 with
+      | some (r, w) => parseFmts r == some m.2 && parseFmts w == some m.2
+      | none => false) = true ∧ 30 ≤ ResaveSamples.modelFormats.length := by decide +kernel
+
 /-- the strong relation of the table implies the accepting one: same items => every value read is accepted -/
 theorem same_formats_accepting (reads writes : List String) (h : fmtPairSame reads writes = true) :
     fmtPairAccepts reads writes = true := by
@@ -478,5 +485,51 @@ theorem resave_stable_typed_partial (tb : Descriptor.Tables) (ht : Descriptor.Te
   obtain ⟨a, _, _⟩ := dec_encodable_typed tb ht pad b x p h hl
   have hwf : ResPSD.WF tb pad x := ⟨hdeep, a⟩
   exact ⟨C01Payload3.psd_roundtrip_resources tb pad x hwf s hs, by rw [ResPSD.enc_refresh, hs]⟩
+
+
+/-! ## non-vacuity -/
+
+/-- an accepted payload that no writer produces: a halftone screen whose frequency has the top bit set, a flag byte 2, four
+non-zero filler bytes. It is re-saved (frequency kept, flag written as 1, filler zeroed): the three clauses hold. -/
+example : ∃ v, HalftoneScreens.codec.dec [0x80, 0, 0, 0, 0, 1, 0xff, 0xff, 0, 0, 0, 1, 9, 9, 9, 9, 2, 0] 0 = .ok (v, 18) ∧
+    ∃ b', HalftoneScreens.codec.enc v = .ok b' ∧ b' = [0x80, 0, 0, 0, 0, 1, 0xff, 0xff, 0, 0, 0, 1, 0, 0, 0, 0, 1, 0] ∧
+      HalftoneScreens.codec.dec b' 0 = .ok (v, 18) :=
+  ⟨[[.int 2147483648, .int 1, .int (-65536), .int 1, .int 1, .int 0]], by decide,
+    [0x80, 0, 0, 0, 0, 1, 0xff, 0xff, 0, 0, 0, 1, 0, 0, 0, 0, 1, 0], by decide, rfl, by decide⟩
+
+example : ∃ b v n, HalftoneScreens.codec.dec b 0 = .ok (v, n) ∧ ∃ b', HalftoneScreens.codec.enc v = .ok b' ∧ b' ≠ b :=
+  ⟨[0x80, 0, 0, 0, 0, 1, 0xff, 0xff, 0, 0, 0, 1, 9, 9, 9, 9, 2, 0],
+    [[.int 2147483648, .int 1, .int (-65536), .int 1, .int 1, .int 0]], 18, by decide,
+    [0x80, 0, 0, 0, 0, 1, 0xff, 0xff, 0, 0, 0, 1, 0, 0, 0, 0, 1, 0], by decide, by decide⟩
+
+/-- the side condition of the descriptor theorems is satisfiable: the same block with its last key in full -/
+example : ∃ v n, (DescriptorPayload.codec Descriptor.realTables 4).dec (ResaveSamples.keyCutShort ++ [99, 100]) 0 = .ok (v, n) ∧
+    v.KeysFull := by
+  have h : ResaveSamples.blockView ((DescriptorPayload.codec Descriptor.realTables 4).dec (ResaveSamples.keyCutShort ++ [99, 100]) 0) =
+      .ok (ResaveSamples.keyCutShort ++ [99, 100], 48, true) := by decide +kernel
+  cases hd : (DescriptorPayload.codec Descriptor.realTables 4).dec (ResaveSamples.keyCutShort ++ [99, 100]) 0 with
+  | error e => rw [hd] at h; cases h
+  | ok r =>
+    obtain ⟨v, n⟩ := r
+    rw [hd] at h
+    simp only [ResaveSamples.blockView, Except.map, Except.ok.injEq, Prod.mk.injEq, decide_eq_true_eq] at h
+    exact ⟨v, n, rfl, h.2.2⟩
+
+/-- non-vacuity of the typed-document theorem: the sample document of C01 (typed resources down to the slices and their
+descriptors), read from its own bytes, satisfies every hypothesis -/
+example : ∃ b x p s, ResPSD.read Samples.rtb b 0 = .ok (x, p) ∧ x.ResourcesOK Samples.rtb ∧ (x.flat Samples.rtb).WF 4 ∧
+    ResPSD.enc Samples.rtb 4 x = .ok s ∧ ResPSD.read Samples.rtb s 0 = .ok (x.refresh, s.length) := by
+  have hwf := C01Payload3.typed_samples_wf
+  have hd : DeepPSD.enc 4 (Samples.resDoc.flat Samples.rtb) = .ok ((Samples.resDoc.flat Samples.rtb).encT 4) := by decide +kernel
+  have henc : ResPSD.enc Samples.rtb 4 Samples.resDoc = .ok ((Samples.resDoc.flat Samples.rtb).encT 4) := by
+    unfold ResPSD.enc; rw [if_pos hwf.2, hd]
+  have hread := C01Payload3.psd_roundtrip_resources Samples.rtb 4 _ hwf.1 _ henc
+  have hok : Samples.resDoc.refresh.ResourcesOK Samples.rtb := by decide +kernel
+  have hdeep : (Samples.resDoc.refresh.flat Samples.rtb).WF 4 := by decide +kernel
+  have henc' : ResPSD.enc Samples.rtb 4 Samples.resDoc.refresh = .ok ((Samples.resDoc.flat Samples.rtb).encT 4) := by
+    rw [ResPSD.enc_refresh, henc]
+  exact ⟨_, _, _, _, hread, hok, hdeep, henc',
+    (resave_stable_typed_partial Samples.rtb Descriptor.realTables_termsFour 4 _ _ _ _ hread hok hdeep henc').1⟩
+
 
 end PsdVerif.C02
